@@ -189,6 +189,10 @@ pub mod posix {
     #[verifier::external_body]
     pub fn chdir(dir: &CStr, Tracked(w): Tracked<&mut World>) -> (r: io::Result<()>)
         requires step_pre(*old(w)),
+            // C06: the child is given BOTH the requested directory and the requested identity whenever the caller could enter the
+            // directory: the directory is entered with the caller's identity, i.e. before the user or group id is changed (a directory
+            // only the caller can reach would otherwise turn a satisfiable request into EACCES)
+            old(w).img.uid.is_none() && old(w).img.gid.is_none(), //[C06]
         ensures match r {
             Ok(()) => final(w).s == old(w).s && final(w).img == (ChildImg { cwd: Some(dir.b@), ..old(w).img }),
             Err(e) => step_failed(*old(w), *final(w), e),
